@@ -137,5 +137,13 @@ Next == (\E t \in Threads : Step(t)) \/ Finish \/ Done
 Spec == Init /\ [][Next]_vars
 
 MonitorOK == bad = {}
+(* the shape facts of the inductive invariant of spec/PoolInd.tla (unbounded programs, Apalache), on this bounded model *)
+CriticalPCs == {"G2", "G4", "G5", "Graise", "R2", "R3", "R4", "D2", "D3", "C2", "C3", "C4", "C5"}
+IndShape == /\ SeqSet(used) \cap SeqSet(free) = {} /\ NoDup(used) /\ NoDup(free)
+            /\ Len(used) + Len(free) + (IF \E t \in Threads : pc[t] \in {"G4", "R3"} THEN 1 ELSE 0) <= MaxSize
+            /\ \A t \in Threads : (pc[t] \in CriticalPCs) <=> (lock = t)
+            /\ \A t \in Threads : pc[t] = "G4" => ~In(used, obj[t]) /\ ~In(free, obj[t])
+            /\ \A t \in Threads : pc[t] = "R3" => ~In(used, obj[t]) /\ ~In(free, obj[t])
+            /\ \A t, u \in Threads : (t # u /\ pc[t] \in {"G4", "G5"} /\ pc[u] \in {"G4", "G5"}) => obj[t] # obj[u]
 (* "no schedule deadlocks" is TLC's own deadlock check (CHECK_DEADLOCK TRUE) *)
 =============================================================================
